@@ -117,33 +117,28 @@ def run(ctx):
 
 
 def zero_rows(ctx, F):
-    """remove_zero_rows may drop an all-zero row only when its bias makes it a tautology (bias >= 0): the keep test must keep every
-    all-zero row with a negative bias (accepted: bias != 0, bias < 0)."""
-    from ..mir import ret_defs
+    """remove_zero_rows may drop an all-zero row only when its bias makes it a tautology (bias >= 0); rows with a non-zero coefficient
+    are always kept.  Decided on the closure's truth table over {all-zero, not} x {bias <0, =0, >0} (affcheck/absint.py)."""
+    from ..absint import truth_table, Unknown
     b = ctx.body('C15.R3', 'AffFuncBase::remove_zero_rows')
     if b is None:
         return
-    ok = False
-    why = ''
-    for cb in b.closure_bodies():
-        if cb.parent != b.path:
-            continue
-        Rc = Resolver(cb)
-        keep_nonzero = False
-        bias_test = None
-        for (i, v, sp) in ret_defs(cb, Rc):
-            lits = literals(cb, Rc, i)
-            anyl = [l for l in lits if is_call(l[1], 'Iterator::any', 'Iterator::all')]
-            if v == ('const', True) and anyl and ((anyl[0][0] == 'true') == (anyl[0][1][1] == 'Iterator::any')):
-                keep_nonzero = True
-            elif v[0] == 'call' and v[1].startswith(('PartialEq::', 'PartialOrd::')) and v[2][0] == ('field', ('param', cb.arg_names()[1]), '1'):
-                bias_test = v[1].split('::')[-1]
-            elif v[0] == 'bin' and v[2] == ('field', ('param', cb.arg_names()[1]), '1'):
-                bias_test = v[1].lower()
-        ok = keep_nonzero and bias_test in ('ne', 'lt')
-        why = 'rows with a non-zero coefficient kept=%s, bias test=%s' % (keep_nonzero, bias_test)
-    (ctx.ok if ok else ctx.bad)('C15.R3', 'AffFuncBase::remove_zero_rows#keep-test', 'all-zero rows are dropped only with bias == 0 (a tautology); rows with negative bias are kept' if ok else
-                                'an all-zero row with a negative bias (an infeasible constraint) can be dropped: ' + why, b.span)
+    site = 'AffFuncBase::remove_zero_rows#keep-test'
+    clos = [cb for cb in b.closure_bodies() if cb.parent == b.path]
+    if len(clos) != 1:
+        ctx.undecided('C15.R3', site, 'expected one filter closure', b.span)
+        return
+    try:
+        tt = truth_table(F, clos[0])
+    except Unknown as e:
+        ctx.undecided('C15.R3', site, 'the keep test leaves the (all-zero?, sign of bias) domain: %s' % e, clos[0].span)
+        return
+    bad = [k for k, v in tt.items() if v is not True and (k[0] is False or k[1] < 0)]
+    if bad:
+        ctx.bad('C15.R3', site, 'rows are dropped that are not tautologies: %s (key = (all coefficients zero, sign of bias))' % bad, clos[0].span)
+    else:
+        dropped = sorted(k for k, v in tt.items() if v is not True)
+        ctx.ok('C15.R3', site, 'only all-zero rows with bias >= 0 can be dropped (dropped cases: %s)' % dropped, clos[0].span)
 
 
 def normalize(ctx, F):
@@ -182,35 +177,35 @@ def normalize(ctx, F):
 
 
 def tautologies(ctx, F):
+    from ..absint import truth_table, Unknown
     b = ctx.body('C15.R3', 'AffFuncBase::remove_tautologies')
     if b is None:
         return
     site = 'AffFuncBase::remove_tautologies#closure'
-    ok = False
-    why = ''
-    for cb in b.closure_bodies():
-        if cb.parent != b.path:
-            continue
-        Rc = Resolver(cb)
-        arms = {}
-        for i, j, st in cb.stmts():
-            if st['k'] == 'assign' and st['place']['local'] == 0 and not st['place']['proj']:
-                v = Rc.rvalue(st['rv'], i, j)
-                lits = literals(cb, Rc, i)
-                allzero = [l for l in lits if is_call(l[1], 'Iterator::all')]
-                ge = [l for l in lits if (l[1][0] == 'bin' and l[1][1] == 'Ge') or is_call(l[1], 'PartialOrd::ge')]
-                key = (allzero[0][0] if allzero else None, ge[0][0] if ge else None)
-                arms[key] = v
-        none = ('agg', ('adt', 'Option', 'None', ()), ())
-        drop = arms.get(('true', 'true'))
-        infeas = arms.get(('true', 'false'))
-        keep = arms.get(('false', None))
-        ok = drop == none and infeas is not None and infeas[0] == 'agg' and infeas[1][2] == 'Some' and infeas[2][0] == none and keep is not None and keep[0] == 'agg' and keep[1][2] == 'Some' \
-            and keep[2][0][0] == 'agg' and keep[2][0][1][2] == 'Some'
-        why = {k: fmt(v)[:40] for k, v in arms.items()}
-        # the comparison is bias >= 0 on the bias component
-    (ctx.ok if ok else ctx.bad)('C15.R3', site, 'all-zero row: bias >= 0 -> dropped, bias < 0 -> whole polytope empty; other rows kept' if ok else
-                                'tautology test has the wrong direction or arms: %s' % why, b.span)
+    clos = [cb for cb in b.closure_bodies() if cb.parent == b.path]
+    if len(clos) != 1:
+        ctx.undecided('C15.R3', site, 'expected one filter_map closure', b.span)
+    else:
+        try:
+            tt = truth_table(F, clos[0])
+            KEEP = ('some', ('some', ('tuple', ['ROW', 'BIAS'])))
+            DROP = ('none',)
+            EMPTY = ('some', ('none',))
+            problems = []
+            for (allzero, sign), v in tt.items():
+                if not allzero and v != KEEP:
+                    problems.append('a row with a non-zero coefficient is not kept unchanged (%s)' % (v,))
+                if allzero and sign < 0 and v not in (EMPTY, KEEP):
+                    problems.append('an all-zero row with negative bias (infeasible) is dropped instead of emptying the polytope')
+                if allzero and sign >= 0 and v not in (DROP, KEEP):
+                    problems.append('an all-zero row with bias %s 0 (a tautology) makes the polytope empty' % ('=' if sign == 0 else '>'))
+            if problems:
+                for p_ in sorted(set(problems)):
+                    ctx.bad('C15.R3', site, p_, clos[0].span)
+            else:
+                ctx.ok('C15.R3', site, 'all-zero row: bias >= 0 -> dropped, bias < 0 -> whole polytope empty; other rows kept unchanged (truth table over 6 abstract cases)', clos[0].span)
+        except Unknown as e:
+            ctx.undecided('C15.R3', site, 'the tautology test leaves the (all-zero?, sign of bias) domain: %s' % e, clos[0].span)
     R = Resolver(b)
     e = [(bb, literals(b, R, bb)) for bb, t in b.calls_to('AffFuncBase::empty')]
     oke = len(e) == 1 and any(l[0] == 'is' and l[2] == frozenset(['None']) for l in e[0][1])
